@@ -3,8 +3,8 @@
 PROPS = {
     'C17': dict(
         units=['uf'],
-        kani_quick=[],
-        kani_thorough=[],
+        kani_quick=['id_axioms_u32', 'id_axioms_usize'],
+        kani_thorough=['uf_reset', 'uf_find_naive_small', 'cuf_find_impl_sequential'],
         design_ref='DESIGN.md section 4 (U-UF, U-ID, U-CUF) and section 5 C17',
         level_text='Unbounded proof (Verus) that the real sequential UnionFind::{reserve,find,find_naive,union} implement '
                    'the abstract partition: find returns root(), path compression never changes any root, union moves exactly '
@@ -38,7 +38,7 @@ PROPS = {
     'C04': dict(
         units=['driver'],
         kani_quick=[],
-        kani_thorough=[],
+        kani_thorough=['incremental_rebuild_monotone'],
         design_ref='DESIGN.md section 4 (U-REBUILD, U-DISP) and section 5 C04',
         level_text='Unbounded proof (Verus) of the driver obligation of C04 on the real egglog-bridge functions '
                    'EGraph::{run_rules_inner, flush_updates_inner, rebuild (native branch), next_ts, inc_ts} and run_rules_impl: '
@@ -58,7 +58,7 @@ PROPS = {
     'C05': dict(
         units=['merge'],
         kani_quick=[],
-        kani_thorough=[],
+        kani_thorough=['combine_subsumed_algebra', 'schema_math_layout', 'write_table_row_vec', 'id_axioms_u32'],
         design_ref='DESIGN.md section 4 (U-MIN, U-MERGE) and section 5 C05',
         level_text='Unbounded proof (Verus) on the real egglog-bridge code that (a) ResolvedMergeFn::run evaluates every resolved merge '
                    'expression compositionally to mval(m, cur, new) (Const/Old/New/AssertEq/UnionId/Primitive/Function, all nesting depths), '
@@ -77,7 +77,7 @@ PROPS = {
     'C13': dict(
         units=['merge'],
         kani_quick=[],
-        kani_thorough=[],
+        kani_thorough=['combine_subsumed_algebra', 'schema_math_layout', 'write_table_row_vec'],
         design_ref='DESIGN.md section 4 (U-MERGE, U-MIN, U-ACT) and section 5 C13',
         level_text='Unbounded proof (Verus) on the real code that the subsume flag is combined by max on every collision in either order '
                    '(combine_subsumed with the real SUBSUMED/NOT_SUBSUMED constants: a subsumed row stays subsumed, two live rows stay live), '
@@ -107,7 +107,7 @@ PROPS = {
     'C16': dict(
         units=['disp'],
         kani_quick=[],
-        kani_thorough=[],
+        kani_thorough=['id_axioms_u32', 'uf_reset'],
         design_ref='DESIGN.md section 4 (U-DISP, U-SWT, U-OFF) and section 5 C16',
         level_text='Unbounded proof (Verus) that every operation of the real DisplacedTable (core-relations/src/uf/mod.rs: insert_impl, expand, '
                    'timestamp_bounds, eval, eval_constraint, fast_subset, get_row_column, len, all, version, updates_since, clear) keeps the '
@@ -123,7 +123,7 @@ PROPS = {
     'C01': dict(
         units=['uf', 'merge', 'disp', 'driver'],
         kani_quick=[],
-        kani_thorough=[],
+        kani_thorough=['id_axioms_u32', 'id_axioms_usize', 'uf_reset'],
         design_ref='DESIGN.md section 4 (U-UF, U-MIN, U-DISP, U-REBUILD) and section 5 C01',
         level_text='Unbounded proof (Verus) of the kernel of congruence closure on the real code: (uf) the union-find realises exactly the partition generated '
                    'by the unions performed, with the minimum id as representative, and path compression never changes it; (merge) an FD conflict on a constructor '
@@ -139,7 +139,7 @@ PROPS = {
     'C14': dict(
         units=['cont', 'merge', 'driver'],
         kani_quick=[],
-        kani_thorough=[],
+        kani_thorough=['rebuild_slice_default'],
         design_ref='DESIGN.md section 4 (U-CONT, U-MIN, U-REBUILD) and section 5 C14',
         level_text='Unbounded proof (Verus) on the real code of: (cont) PairContainer/VecContainer::rebuild_contents rebuild every element flagged for rebuild through the '
                    'rebuilder and return false only if nothing was modified (the trait obligation); ContainerValues::expand_dirty_id_closure returns a superset of the dirty ids '
